@@ -8,6 +8,8 @@ pub mod parallel_writer;
 pub(crate) mod resettable_oncelock;
 mod shared_arena;
 pub mod threadpool;
+#[cfg(feature = "verif-hooks")]
+pub mod verif;
 use arc_swap::{ArcSwap, Guard};
 
 pub use bitset::BitSet;
